@@ -4,7 +4,7 @@ from __future__ import annotations
 import ast
 from typing import Dict, List, Optional, Set, Tuple
 
-from vlib import match, source
+from vlib import flow, match, source
 from vlib.cfg import CFG, Node, own_calls
 from vlib.source import AnalysisError, call_name, dotted, last_attr, short
 
@@ -175,6 +175,62 @@ def novel_keys_copied(oo: ast.AST):
     return False, oo, "no copy of the keys that only the higher layer defines was found"
 
 
+def check_scope_per_item(ctx, fl, rule: str, consequence: str, funcs=("FlowIRConcrete.instance",)) -> int:
+    """A dictionary that is used as the substitution scope (context= of fill_in / interpolate) inside a loop AND receives the loop
+    item's own variables through .update() must be bound afresh inside that loop's body: every definition that reaches the update
+    lies inside the body of the innermost loop whose item the update depends on.  Shared by C04.R12 and C15.R9."""
+    n = 0
+    for q in funcs:
+        f = fl.func(q)
+        ctx.analysed(f)
+        cfg = CFG(f)
+        loops = [lp for lp in source.walk_own(f) if isinstance(lp, ast.For)]
+        for lp in loops:
+            body_nodes = {id(x) for st in lp.body for x in ast.walk(st)}
+            tvars = {x.id for x in ast.walk(lp.target) if isinstance(x, ast.Name)}
+            # locals that depend on the loop item (assigned inside the body from expressions mentioning the target, transitively)
+            dep = set(tvars)
+            changed = True
+            while changed:
+                changed = False
+                for st in lp.body:
+                    for a in ast.walk(st):
+                        if isinstance(a, ast.Assign) and len(a.targets) == 1 and isinstance(a.targets[0], ast.Name) and a.targets[0].id not in dep \
+                                and any(isinstance(x, ast.Name) and x.id in dep for x in ast.walk(a.value)):
+                            dep.add(a.targets[0].id)
+                            changed = True
+            for st in lp.body:
+                for c in ast.walk(st):
+                    if not (isinstance(c, ast.Call) and last_attr(c) == "update" and isinstance(c.func.value, ast.Name) and c.args):
+                        continue
+                    x = c.func.value.id
+                    if not any(isinstance(y, ast.Name) and y.id in dep for y in ast.walk(c.args[0])):
+                        continue
+                    # innermost loop only: skip when a nested loop inside lp also contains this call and depends on its own item
+                    inner = [l2 for l2 in loops if l2 is not lp and id(l2) in body_nodes and any(c is z for z in ast.walk(l2))
+                             and any(isinstance(y, ast.Name) and y.id in {t.id for t in ast.walk(l2.target) if isinstance(t, ast.Name)} for y in ast.walk(c.args[0]))]
+                    if inner:
+                        continue
+                    # is x a substitution scope inside this loop?
+                    as_scope = any(isinstance(k, ast.Call) and last_attr(k) in ("fill_in", "interpolate", "replace_strings", "expand_vars") and any(
+                        kw.arg in ("context", "variables") and isinstance(kw.value, ast.Name) and kw.value.id == x for kw in k.keywords)
+                        for st2 in lp.body for k in ast.walk(st2))
+                    if not as_scope:
+                        continue
+                    n += 1
+                    at = [nd for nd in cfg.nodes if nd.kind == "stmt" and nd.ast is not None and any(c is z for z in ast.walk(nd.ast))]
+                    rd = flow.reaching_defs(cfg, x).get(at[0].id, frozenset()) if at else frozenset({-1})
+                    outside = [d for d in rd if d < 0 or id(cfg.nodes[d].ast) not in body_nodes]
+                    ok = not outside
+                    ctx.ob(rule, c, ok,
+                           "%s: the scope %s is created inside the loop over %s before the item's variables are layered on it" % (q, x, source.src(lp.iter)[:40]) if ok else
+                           "%s layers the variables of one item of %s on the scope %s, which was created OUTSIDE that loop (line %s) and is used to "
+                           "substitute references for every item: %s" % (
+                               q, source.src(lp.iter)[:40], x, ", ".join(str(getattr(cfg.nodes[d].ast, "lineno", "?")) for d in outside if d >= 0) or "parameter", consequence),
+                           construct="%s: %s.update(<item variables>) <- scope created per item" % (q, x))
+    return n
+
+
 def check_platform_threaded(ctx, fl) -> None:
     rule = "C04.R11-requested-platform-reaches-every-layer"
     cls = fl.cls("FlowIRConcrete")
@@ -225,6 +281,9 @@ def run(ctx) -> None:
     ctx.rule("C04.R11-requested-platform-reaches-every-layer", "inside a method of FlowIRConcrete that takes a 'platform' argument, every call of a "
              "method of the same class that also takes one passes it (any value): a callee that is left to fall back on the ACTIVE platform "
              "reads one layer - e.g. the selected platform's stage settings - from another platform than the one that was asked for")
+    ctx.rule("C04.R12-scope-per-component", "in FlowIRConcrete.instance the dictionary that serves as substitution scope for a component (context= of "
+             "fill_in / interpolate) and receives that component's variables is created inside the loop over the components: a scope built "
+             "once per stage and updated per component carries one component's variables into the components visited after it")
     ctx.rule("C04.R9-flattened-description-keeps-the-order", "the configuration is loaded through FlowIRConcrete.instance()/replicate(), a second "
              "implementation of the variable layering: for every way a name can be defined in the default/platform x global/stage "
              "scopes it lets the same scope win as the live resolver get_component_variables (LAYER engine, shared with C07.R7)")
@@ -237,6 +296,10 @@ def run(ctx) -> None:
 
     m = ctx.repo.module(FLOWIR)
     check_platform_threaded(ctx, m)
+    n12 = check_scope_per_item(ctx, m, "C04.R12-scope-per-component",
+                               "a component-level variable that shadows a global or stage variable leaks into the sibling components visited after it - their "
+                               "references resolve to the sibling's value instead of the layered one")
+    ctx.floor("C04.R12-scope-per-component", n12, 1, "per-item updates of a substitution scope in FlowIRConcrete.instance")
 
     # ---------------- R7: the layered value is what a query returns only if the cache is transparent -----------------
     from checks import c08
